@@ -7,6 +7,7 @@ import (
 	"context"
 	"errors"
 	"fmt"
+	"github.com/wealdtech/go-majordomo"
 	"sync"
 	"sync/atomic"
 	"time"
@@ -47,16 +48,26 @@ type Majordomo struct {
 	mu      sync.Mutex
 	cur     Outcome
 	Fetches atomic.Int64
+	Hold    func(ctx context.Context) // when set, every fetch first waits here
 }
+
+// SetHold installs (or with nil removes) the hold on fetches.
+func (m *Majordomo) SetHold(f func(ctx context.Context)) { m.mu.Lock(); m.Hold = f; m.mu.Unlock() }
 
 func (m *Majordomo) Set(o Outcome) { m.mu.Lock(); m.cur = o; m.mu.Unlock() }
 
-func (m *Majordomo) Fetch(_ context.Context, _ string) ([]byte, error) {
+func (m *Majordomo) Fetch(ctx context.Context, _ string) ([]byte, error) {
 	m.Fetches.Add(1)
 	m.mu.Lock()
 	o := m.cur
+	hold := m.Hold
 	m.mu.Unlock()
+	if hold != nil {
+		hold(ctx) // a slow or hung source
+	}
 	switch o.Kind {
+	case "not-found":
+		return nil, majordomo.ErrNotFound // what the file and HTTP sources report for an absent document or a failing server
 	case "valid":
 		return []byte(o.Doc), nil
 	case "error":
